@@ -72,6 +72,53 @@ def any_curve(rng, n, j):
 TGRID = [0.0, 0.1, 0.25, 0.33, 0.5, 0.75, 1.0]
 
 
+def sibling_curve(rng, pts, j):
+    """a curve with the same number of points and different heights and/or x (what a re-used working buffer holds next)"""
+    n = len(pts)
+    mode = rng.choice(['fresh', 'fresh', 'heights', 'scale_y', 'shift_x', 'reverse_y'])
+    if mode == 'fresh':
+        return any_curve(rng, n, rng.choice([0, 1, 2, 3, 5, 9]))[1]
+    if mode == 'heights':
+        other = corner_curve(rng, n)
+        return [[p[0], q[1]] for p, q in zip(pts, other)]
+    if mode == 'scale_y':
+        f = rng.choice([2.0, 0.5, 3.0])
+        return [[p[0], p[1] * f] for p in pts]
+    if mode == 'shift_x':
+        xs = gen.xs_increasing(rng, n, rng.choice(['int', 'float']))
+        return [[float(x), p[1]] for x, p in zip(xs, pts)]
+    ys = [p[1] for p in pts][::-1]
+    return [[p[0], y] for p, y in zip(pts, ys)]
+
+
+def seq_case(rng, n, j):
+    """same-object stream: one points buffer + one knees array, 3-5 calls, buffer refilled in place between some calls"""
+    fam, a = any_curve(rng, n, rng.choice([0, 1, 0, 2, 3, 5, 7, 9]))
+    curves = [a]
+    for _ in range(rng.randint(1, 2)):
+        curves.append(sibling_curve(rng, curves[-1], j))
+    p = rng.choice([0.5, 0.8, 1.0])
+    ks = [i for i in range(n) if rng.random() < p]
+    steps = []
+    cur = 0
+    nsteps = rng.randint(3, 5)
+    for k in range(nsteps):
+        if k > 0 and rng.random() < 0.55:
+            cur = rng.choice([c for c in range(len(curves)) if c != cur])
+        op = rng.choice(['worst', 'filter', 'filter', 'select', 'select'])
+        st = {'op': op, 'curve': cur}
+        if op != 'worst':
+            st['t'] = pick_t(rng, curves[cur], ks)[0]
+        steps.append(st)
+    if len({st['curve'] for st in steps}) < 2:          # at least one in-place refill
+        steps[-1]['curve'] = 1 - steps[-1]['curve'] if len(curves) == 2 else (steps[-1]['curve'] + 1) % len(curves)
+        if steps[-1]['op'] != 'worst':
+            steps[-1]['t'] = pick_t(rng, curves[steps[-1]['curve']], ks)[0]
+    isint = all(float(v).is_integer() and abs(v) < 2 ** 20 for c in curves for q in c for v in q)
+    return {'kind': 'seq', 'curves': curves, 'ks': ks, 'steps': steps, 'family': fam,
+            'dtype': 'int' if (isint and j % 2 == 0) else 'float'}
+
+
 def pick_t(rng, points, ks):
     vals = [v for v in ious(points, ks).values() if v == v]
     if not vals:
@@ -157,6 +204,12 @@ class C13:
             pts = [[float(i), ys[i]] for i in range(n)]
             ks = [i for i in range(n) if rng.random() < 0.8]
             cases.append({'kind': 'worst', 'points': pts, 'ks': ks, 'family': 'neartie', 'dtype': 'float'})
+        # same-object multi-call stream (about one case in six): the implementation must answer for the contents its
+        # arguments hold AT THE CALL, whatever it was asked before on the same array objects, and must not write to them
+        nseq = max(40, len(cases) // 6) if tier != 'thorough' else len(cases) // 6
+        for m in range(nseq):
+            n = rng.randint(3, nmax if m % 4 else min(nmax, 8))
+            cases.append(seq_case(rng, n, m))
         # malformed stream (never a verdict): unsorted / repeated / out-of-range knees, NaN coordinates
         for m in range({'quick': 16, 'search': 4, 'thorough': 120}.get(tier, 16)):
             n = rng.randint(3, 8)
@@ -189,6 +242,8 @@ class C13:
         import numpy as np
         import kneeliverse.postprocessing as pp
         c = dict(c)
+        if c['kind'] == 'seq':
+            return self.run_seq(c, np, pp)
         n = len(c['points'])
         if c['dtype'] == 'int':
             pts = np.array([[int(p[0]), int(p[1])] for p in c['points']], dtype=np.int64).reshape(n, 2)
@@ -218,7 +273,49 @@ class C13:
                 c['S2'] = as_nat_list(S2) if st == 'ok' else None
         return c
 
+    def run_seq(self, c, np, pp):
+        def arr(points):
+            m = len(points)
+            if c['dtype'] == 'int':
+                return np.array([[int(q[0]), int(q[1])] for q in points], dtype=np.int64).reshape(m, 2)
+            return np.array(points, dtype=float).reshape(m, 2)
+        snaps = [arr(p) for p in c['curves']]             # separate fresh copies: what the buffer must hold
+        ks_snap = np.array(c['ks'], dtype=int)
+        cur = c['steps'][0]['curve']
+        buf = snaps[cur].copy()                            # THE one points object every call receives
+        ks = ks_snap.copy()                                # THE one knees object every call receives
+        outs, intact = [], True
+        for st in c['steps']:
+            if st['curve'] != cur:
+                cur = st['curve']
+                buf[:] = snaps[cur]                        # refill in place
+            if st['op'] == 'worst':
+                r = call(pp.filter_worst_knees, buf, ks)
+            elif st['op'] == 'filter':
+                r = call(pp.filter_corner_knees, buf, ks, st['t'])
+            else:
+                r = call(pp.select_corner_knees, buf, ks, st['t'])
+            outs.append(as_nat_list(r[1]) if r[0] == 'ok' else None)
+            if not (np.array_equal(buf, snaps[cur], equal_nan=True) and buf.dtype == snaps[cur].dtype
+                    and np.array_equal(ks, ks_snap) and ks.dtype == ks_snap.dtype):
+                intact = False
+                buf[:] = snaps[cur]                        # restore, so later steps are judged on their own
+                ks[:] = ks_snap
+        c['outs'] = outs
+        c['intact'] = intact
+        return c
+
     def emit(self, c):
+        if c['kind'] == 'seq':
+            outs = c.get('outs') or [None] * len(c['steps'])
+            terms = []
+            for st, o in zip(c['steps'], outs):
+                P = cpts(c['curves'][st['curve']])
+                if st['op'] == 'worst':
+                    terms.append('SWorst %s %s %s' % (P, cnats(c['ks']), copt(o, cnats)))
+                else:
+                    terms.append('%s %s %s %s %s' % ('SFilter' if st['op'] == 'filter' else 'SSelect', P, cnats(c['ks']), fl(st['t']), copt(o, cnats)))
+            return 'CSeq %s %s' % (clist(terms), cbool(c.get('intact', False)))
         if c['kind'] == 'worst':
             return 'CWorst %s %s %s %s' % (cpts(c['points']), cnats(c['ks']), copt(c.get('out'), cnats), copt(c.get('out2'), cnats))
         return 'CCorner %s %s %s %s %s %s %s' % (cpts(c['points']), cnats(c['ks']), fl(c['t']),
@@ -246,8 +343,28 @@ class C13:
         hi = sum(1 for x in v.values() if x >= c['t'])
         return lo, hi, tie
 
+    def _seq_differs(self, c):
+        ks = c['ks']
+        for st in c['steps']:
+            if st['op'] == 'worst':
+                continue
+            cls = set()
+            for cv in c['curves']:
+                v = ious(cv, ks)
+                cls.add(tuple(v[k] < st['t'] for k in sorted(v)))
+            if len(cls) > 1:
+                return True
+        return False
+
     def nontrivial_key(self, c):
         if c['family'] == 'malformed':
+            return None
+        if c['kind'] == 'seq':
+            if not c.get('outs') or any(o is None for o in c['outs']):
+                return None
+            # non-trivial: some knee is classified differently by the curves the buffer held (a stale answer would show)
+            if self._seq_differs(c):
+                return ('seq', str(c['curves']), tuple(c['ks']), str(c['steps']))
             return None
         if c['kind'] == 'worst':
             if c.get('out') is None:
@@ -266,6 +383,11 @@ class C13:
     def classify(self, c):
         if c['family'] == 'malformed':
             return {'family': 'malformed'}
+        if c['kind'] == 'seq':
+            return {'family': c['family'], 'kind': 'seq', 'n': min(len(c['curves'][0]), 64) // 4 * 4, 'knees': min(len(c['ks']), 16),
+                    'dtype': c['dtype'], 'seq_calls': len(c['steps']),
+                    'seq_refills': sum(1 for a, b in zip(c['steps'], c['steps'][1:]) if a['curve'] != b['curve']),
+                    'seq_curves_classify_differently': self._seq_differs(c)}
         d = {'family': c['family'], 'kind': c['kind'], 'n': min(len(c['points']), 64) // 4 * 4, 'knees': min(len(c['ks']), 16), 'dtype': c['dtype']}
         if c['kind'] == 'worst':
             kept, dropped, tie = self._worst_stats(c)
@@ -281,6 +403,18 @@ class C13:
         return d
 
     def shrink(self, c):
+        if c['kind'] == 'seq':
+            out = []
+            for j in range(len(c['steps'])):
+                if len(c['steps']) > 1:
+                    d = dict(c)
+                    d['steps'] = c['steps'][:j] + c['steps'][j + 1:]
+                    out.append(d)
+            for j in range(len(c['ks'])):
+                d = dict(c)
+                d['ks'] = c['ks'][:j] + c['ks'][j + 1:]
+                out.append(d)
+            return out
         out = []
         ks = c['ks']
         for j in range(len(ks)):
@@ -300,9 +434,23 @@ class C13:
         return out
 
     def sample(self, c):
-        return {k: c[k] for k in ['kind', 'points', 'ks', 't', 'dtype', 'family', 'out', 'out2', 'F', 'S', 'F2', 'S2'] if k in c}
+        return {k: c[k] for k in ['kind', 'points', 'curves', 'steps', 'ks', 't', 'dtype', 'family', 'out', 'out2', 'F', 'S', 'F2', 'S2', 'outs', 'intact'] if k in c}
 
     def describe(self, c):
+        if c['kind'] == 'seq':
+            dt = ', dtype=np.int64' if c['dtype'] == 'int' else ''
+            lines = ['import numpy as np, kneeliverse.postprocessing as pp',
+                     'curves = [np.array(p%s) for p in %s]' % (dt, c['curves']),
+                     'buf = curves[%d].copy(); ks = np.array(%s, dtype=int)   # ONE points object, ONE knees object' % (c['steps'][0]['curve'], c['ks'])]
+            cur = c['steps'][0]['curve']
+            for st in c['steps']:
+                if st['curve'] != cur:
+                    cur = st['curve']
+                    lines.append('buf[:] = curves[%d]   # refill in place' % cur)
+                f = {'worst': 'filter_worst_knees(buf, ks)', 'filter': 'filter_corner_knees(buf, ks, %r)' % st.get('t'),
+                     'select': 'select_corner_knees(buf, ks, %r)' % st.get('t')}[st['op']]
+                lines.append('print(pp.%s, np.array_equal(buf, curves[%d]))   # compare with the same call on curves[%d].copy()' % (f, cur, cur))
+            return '; '.join(lines)
         arr = 'np.array(%s%s)' % (c['points'], ', dtype=np.int64' if c['dtype'] == 'int' else '')
         if c['kind'] == 'worst':
             return 'o = kneeliverse.postprocessing.filter_worst_knees(%s, np.array(%s, dtype=int)); then filter_worst_knees(points, o)' % (arr, c['ks'])
